@@ -33,11 +33,37 @@ def wires(hw, prefix, widths):
     return [hw.wire('%s%d' % (prefix, i), w) for i, w in enumerate(widths)]
 
 
-def catalogue(py4hw, quick):
-    """list of Block.  configs are chosen so that the full truth table is small for the first ones of each block
+def probe_policies(py4hw):
+    """The two width formulas the structural models are parametric in, read off the REAL blocks (so that the model follows /repo
+    before and after the repairs of findings C08-xor2-wide-result and C08-equal-wider-b):
+      mid : width of Xor2's internal Mid wire as a function of (wa, wb, wr)   -> 'mid_a' (a's width) | 'mid_max' (max of the three)
+      eqw : width of Equal's internal xor wire as a function of (wa, wb)      -> 'eqw_a' (a's width) | 'eqw_max' (the wider operand)
+    None when the real widths follow neither formula (the models can then not be tied to the code)."""
+    from common import quiet
+    mids, eqws = [], []
+    for wa, wb, wr in ((1, 1, 2), (1, 2, 2), (2, 1, 3), (3, 2, 1), (2, 3, 1), (1, 3, 2), (2, 2, 2)):
+        with quiet():
+            hw = py4hw.HWSystem(); d = py4hw.Xor2(hw, 'dut', hw.wire('a', wa), hw.wire('b', wb), hw.wire('r', wr))
+        got = [d._wires[n].getWidth() for n in ('Mid', 'XOut', 'YOut')]
+        mids.append(((wa, wb, wr), got))
+    for wa, wb in ((1, 2), (2, 1), (3, 1), (1, 3), (2, 2), (2, 3)):
+        with quiet():
+            hw = py4hw.HWSystem(); d = py4hw.Equal(hw, 'dut', hw.wire('a', wa), hw.wire('b', wb), hw.wire('r', 1))
+        eqws.append(((wa, wb), d._wires['xor'].getWidth()))
+    mid = ('mid_a' if all(g == [t[0]] * 3 for t, g in mids) else
+           'mid_max' if all(g == [max(t)] * 3 for t, g in mids) else None)
+    eqw = ('eqw_a' if all(g == t[0] for t, g in eqws) else
+           'eqw_max' if all(g == max(t) for t, g in eqws) else None)
+    return {'mid': mid, 'eqw': eqw, 'probed': {'xor2_internal_widths': mids, 'equal_xor_width': eqws}}
+
+
+def catalogue(py4hw, quick, pol=None):
+    """list of Block.  pol: result of probe_policies (default: probe now).  configs are chosen so that the full truth table is small for the first ones of each block
     (arity <= 5 x width <= 3) and random / boundary inputs are used beyond (decided by the driver from the bit count)."""
     B = []
     L = py4hw
+    pol = pol or probe_policies(py4hw)
+    MID, EQW = pol['mid'] or 'mid_a', pol['eqw'] or 'eqw_a'
 
     # ------------------------------------------------------------------ 2-input gates, Not, Buf, Constant
     def gate2(cls, mname, sname, mixed):
@@ -46,7 +72,7 @@ def catalogue(py4hw, quick):
             getattr(L, cls)(hw, 'dut', a, b, r); return [a, b], [r]
         def model(c):
             if cls in ('And2', 'Or2'): return lam(2, '[%s %d x0 x1]' % (mname, c['wr']))
-            if cls == 'Xor2': return lam(2, '[Xor2_m %d %d %d x0 x1]' % (c['wa'], c['wb'], c['wr']))
+            if cls == 'Xor2': return lam(2, '[Xor2_m %s %d %d %d x0 x1]' % (MID, c['wa'], c['wb'], c['wr']))
             return lam(2, '[%s %d %d x0 x1]' % (mname, c['wa'], c['wr']))
         def spec(c): return lam(2, '[%s %d x0 x1]' % (sname, c['wr']))
         cfgs = [dict(wa=w, wb=w, wr=w) for w in (1, 2, 3, 4, 8, 16, 33, 64)]
@@ -54,6 +80,8 @@ def catalogue(py4hw, quick):
             cfgs += [dict(wa=3, wb=2, wr=4), dict(wa=2, wb=3, wr=1), dict(wa=1, wb=4, wr=3)]
         else:       # gates with internal wires of a's width: r no wider than a
             cfgs += [dict(wa=3, wb=3, wr=2), dict(wa=4, wb=2, wr=3)]
+        if cls == 'Xor2' and MID == 'mid_max':      # repaired Xor2: any mix of widths
+            cfgs += [dict(wa=1, wb=1, wr=2), dict(wa=1, wb=2, wr=2), dict(wa=2, wb=3, wr=4), dict(wa=2, wb=1, wr=3), dict(wa=1, wb=3, wr=2), dict(wa=8, wb=3, wr=12)]
         B.append(Block(cls, build, model, spec, lambda c: [c['wa'], c['wb']], cfgs))
     gate2('And2', 'And2_m', 'and2_spec', True)
     gate2('Or2', 'Or2_m', 'or2_spec', True)
@@ -86,12 +114,13 @@ def catalogue(py4hw, quick):
         cfgs = [dict(n=n, wi=w, w=w) for n in range(min_n, 6) for w in (1, 2, 3)]
         cfgs += [dict(n=7, wi=5, w=5), dict(n=9, wi=1, w=1), dict(n=3, wi=32, w=32), dict(n=12, wi=8, w=8), dict(n=4, wi=4, w=3), dict(n=3, wi=3, w=2)]
         if cls in ('And', 'Or'): cfgs += [dict(n=3, wi=2, w=4), dict(n=1, wi=2, w=4), dict(n=1, wi=4, w=2)]
+        if cls == 'Xor' and MID == 'mid_max': cfgs += [dict(n=3, wi=2, w=4), dict(n=2, wi=1, w=3), dict(n=4, wi=1, w=2)]
         if not quick: cfgs += [dict(n=n, wi=w, w=w) for n in (6, 10, 17, 33) for w in (1, 2, 6)]
         B.append(Block(cls, build, lambda c: '(fun l : list Z => [%s l])' % mfun(c), lambda c: '(fun l : list Z => [%s %d l])' % (sname, c['w']),
                        lambda c: [c['wi']] * c['n'], cfgs))
     nary('And', lambda c: 'And_m %d' % c['w'], 'and_spec', 1)
     nary('Or', lambda c: 'Or_m %d' % c['w'], 'or_spec', 1)
-    nary('Xor', lambda c: 'Xor_m %d %d' % (c['wi'], c['w']), 'xor_spec', 2)
+    nary('Xor', lambda c: 'Xor_m %s %d %d' % (MID, c['wi'], c['w']), 'xor_spec', 2)
     nary('Nor', lambda c: 'Nor_m %d %d' % (c['wi'], c['w']), 'nor_spec', 1)
 
     def redbits(cls, mname, sfun):
@@ -227,12 +256,15 @@ def catalogue(py4hw, quick):
 
     def b_equal(hw, c):
         a, b, r = hw.wire('a', c['w']), hw.wire('b', c.get('wb', c['w'])), hw.wire('r', 1); L.Equal(hw, 'dut', a, b, r); return [a, b], [r]
-    B.append(Block('Equal', b_equal, lambda c: lam(2, '[Equal_m %d %d x0 x1]' % (c['w'], c['w'])), lambda c: lam(2, '[equal_spec x0 x1]'),
-                   lambda c: [c['w'], c['w']], [dict(w=w) for w in (1, 2, 3, 4, 5, 8, 16, 32, 64)]))
+    eq_cfgs = [dict(w=w) for w in (1, 2, 3, 4, 5, 8, 16, 32, 64)] + [dict(w=3, wb=2), dict(w=4, wb=1), dict(w=2, wb=1)]      # b no wider than a
+    if EQW == 'eqw_max':       # repaired Equal claims any two widths (correct only on a repaired Xor2: committing the Equal repair alone is flagged)
+        eq_cfgs += [dict(w=1, wb=2), dict(w=2, wb=3), dict(w=1, wb=4), dict(w=3, wb=5), dict(w=8, wb=11)]
+    B.append(Block('Equal', b_equal, lambda c: lam(2, '[Equal_m %s %s %d %d x0 x1]' % (MID, EQW, c['w'], c.get('wb', c['w']))), lambda c: lam(2, '[equal_spec x0 x1]'),
+                   lambda c: [c['w'], c.get('wb', c['w'])], eq_cfgs))
 
     def b_anyeq(hw, c):
         ins = wires(hw, 'i', [c['w']] * c['n']); r = hw.wire('r', 1); L.AnyEqual(hw, 'dut', ins, r); return ins, [r]
-    B.append(Block('AnyEqual', b_anyeq, lambda c: '(fun l : list Z => [AnyEqual_m %d 1 l])' % c['w'], lambda c: '(fun l : list Z => [any_equal_spec l])',
+    B.append(Block('AnyEqual', b_anyeq, lambda c: '(fun l : list Z => [AnyEqual_m %s %s %d 1 l])' % (MID, EQW, c['w']), lambda c: '(fun l : list Z => [any_equal_spec l])',
                    lambda c: [c['w']] * c['n'], [dict(n=n, w=w) for n in (2, 3, 4) for w in (1, 2, 3)] + [dict(n=5, w=2), dict(n=3, w=16), dict(n=6, w=4)]))
 
     CW = (1, 2, 3, 4, 5, 8, 16, 32, 64)
@@ -245,13 +277,13 @@ def catalogue(py4hw, quick):
     def b_cmpsu(hw, c):
         a, b = hw.wire('a', c['w']), hw.wire('b', c['w']); o = wires(hw, 'o', [1] * 5)
         L.ComparatorSignedUnsigned(hw, 'dut', a, b, o[0], o[1], o[2], o[3], o[4]); return [a, b], o      # gtu, eq, ltu, gt, lt
-    B.append(Block('ComparatorSignedUnsigned', b_cmpsu, lambda c: lam(2, t5('ComparatorSU_m %d x0 x1' % c['w'])), lambda c: lam(2, t5('cmp_su_spec %d x0 x1' % c['w'])),
+    B.append(Block('ComparatorSignedUnsigned', b_cmpsu, lambda c: lam(2, t5('ComparatorSU_m %s %d x0 x1' % (MID, c['w']))), lambda c: lam(2, t5('cmp_su_spec %d x0 x1' % c['w'])),
                    lambda c: [c['w'], c['w']], [dict(w=w) for w in CW]))
 
     def minmax(cls, mname, sfun):
         def build(hw, c):
             a, b, r = hw.wire('a', c['w']), hw.wire('b', c['w']), hw.wire('r', c['w']); getattr(L, cls)(hw, 'dut', a, b, r); return [a, b], [r]
-        B.append(Block(cls, build, lambda c: lam(2, '[%s %d %d x0 x1]' % (mname, c['w'], c['w'])), lambda c: lam(2, '[%s]' % sfun(c)),
+        B.append(Block(cls, build, lambda c: lam(2, '[%s %d %d x0 x1]' % (mname if not mname.startswith('Signed') else mname + ' ' + MID, c['w'], c['w'])), lambda c: lam(2, '[%s]' % sfun(c)),
                        lambda c: [c['w'], c['w']], [dict(w=w) for w in CW]))
     minmax('Max2', 'Max2_m', lambda c: 'max2_spec %d x0 x1' % c['w'])
     minmax('Min2', 'Min2_m', lambda c: 'min2_spec %d x0 x1' % c['w'])
